@@ -162,6 +162,77 @@ func zzC06_nstart() {
 	symWaitUntil(func() bool { return done2 })
 }
 
+// C06-C — outcome of the request call under loss: the peer's acknowledgement/response gets back after a decided
+// number of lost copies, or a reset arrives, or nothing ever arrives (2 threads)
+func zzC06_do() {
+	s := zzNewSession()
+	errs := 0
+	maxRetransmit := uint32(symChoose("maxRetransmit", 2) + 1)
+	cc := zzNewConn(s, zzConnCfg{midSeed: 1000, ackTimeout: 1 << 20, maxRetrans: maxRetransmit, nstart: 1, errs: &errs})
+	now := int64(1 << 41)
+	s.now = &now
+	symSetNow(time.Unix(0, now))
+	ctx, cancel := context.WithCancel(context.Background())
+	c := &zzCall{token: message.Token{0xA1, 0xA2}}
+	go func() {
+		req := pool.NewMessage(ctx)
+		req.SetCode(codes.GET)
+		req.SetToken(c.token)
+		_ = req.SetPath("/a")
+		c.resp, c.err = cc.Do(req)
+		if c.err == nil && c.resp != nil {
+			c.body, _ = c.resp.ReadBody()
+		}
+		c.done = true
+	}()
+	zzWaitWritten(s, 1)
+	// some copies are lost: housekeeping ticks spaced by more than the (growing) timeout
+	lost := symChoose("lost", 4)
+	for i := 0; i < lost; i++ {
+		now += 1 << 24
+		symSetNow(time.Unix(0, now))
+		cc.CheckExpirations(time.Unix(0, now))
+	}
+	copies := len(s.written)
+	symAssert(uint32(copies) <= 1+maxRetransmit, "at most 1+MAX_RETRANSMIT transmissions")
+	exhausted := uint32(lost) > maxRetransmit
+	tag := symU8("tag")
+	switch symChoose("outcome", 3) {
+	case 0: // a copy reached the peer and its piggybacked response gets back
+		zzAnswer(cc, s.written[copies-1], tag, 0, 1)
+		if !exhausted {
+			symCover("answered")
+			symWaitUntil(func() bool { return c.done })
+			symAssert(c.err == nil && len(c.body) == 1 && c.body[0] == tag, "a response that gets back before the attempts are exhausted makes the call succeed with it")
+		} else {
+			symCover("answered-too-late")
+		}
+	case 1: // reset
+		_ = cc.Process(nil, zzDatagram(message.Reset, s.written[0].mid, codes.Empty, nil, nil))
+		symCover("reset")
+	case 2:
+		symCover("silence")
+	}
+	before := len(s.written)
+	now += 1 << 30
+	symSetNow(time.Unix(0, now))
+	cc.CheckExpirations(time.Unix(0, now))
+	if c.done || exhausted {
+		symAssert(len(s.written) == before, "no copy after the call returned or after the attempts are exhausted")
+	}
+	if !c.done {
+		cancel()
+		symWaitUntil(func() bool { return c.done })
+		symAssert(c.err != nil, "exhaustion, a reset or silence never produces a successful response")
+	}
+	after := len(s.written)
+	now += 1 << 30
+	symSetNow(time.Unix(0, now))
+	cc.CheckExpirations(time.Unix(0, now))
+	symAssert(len(s.written) == after, "no copy after the return of the call")
+	symAssert(cc.midHandlerContainer.Length() == 0 && cc.tokenHandlerContainer.Length() == 0, "nothing is retained for the request")
+}
+
 func zzC06_selftest() {
 	s := zzNewSession()
 	cc := zzNewConn(s, zzConnCfg{midSeed: 1000, ackTimeout: 1000, maxRetrans: 2, nstart: 1})
